@@ -715,14 +715,12 @@ class MQTTBaseProtocol(Protocol):
             log.warn("--- {packet:7} Timeout", packet="PINGREQ")
             self._pingReq.alarm = None    # it has just fired: nothing left to cancel
             self.transport.abortConnection()
-        if self._pingReq.alarm is not None:
-            # the previous PINGREQ is still unanswered a whole keepalive period later
-            # (its alarm, due at the same moment, has not run yet); do not lose track of it
-            self._pingReq.alarm.cancel()
-            doPingError()
-            return
         log.debug("==> {packet:7}", packet="PINGREQ")
         self.transport.write(self._pingReq.pdu)
+        if self._pingReq.alarm is not None:
+            # an earlier PINGREQ is still unanswered (ping() called again, or a keepalive tick that
+            # runs just before the alarm due at the same moment): its deadline stands, do not lose track of it
+            return
         self._pingReq.alarm = self.callLater(self._pingReq.keepalive, doPingError)
 
     # ------------------------------------------------------------------------
